@@ -223,6 +223,9 @@ func c14Compile(dir string) (cc *c14Compiled, err error) {
 
 const c14StepLimit = 3_000_000
 
+// instructions executed by the last c14RunVM (the harness is single-threaded on the VM side)
+var c14LastSteps int64
+
 // c14RunVM invokes the method at offset off the way the node does (arguments on the stack, first on
 // top; _initialize called first when present). Returns the result stack or the fault message.
 func c14RunVM(cc *c14Compiled, off int, args []c14Val) (stack []stackitem.Item, fault string) {
@@ -243,7 +246,9 @@ func c14RunVM(cc *c14Compiled, off int, args []c14Val) (stack []stackitem.Item, 
 	if cc.initOff >= 0 {
 		v.Call(cc.initOff)
 	}
-	if err := v.Run(); err != nil {
+	err := v.Run()
+	c14LastSteps = steps
+	if err != nil {
 		msg := err.Error()
 		if steps >= c14StepLimit {
 			msg = "STEP LIMIT: " + msg
